@@ -14,6 +14,9 @@ pub enum FileKind {
     DanglingSymlink,
     /// a directory whose name ends in `.rs`
     Directory,
+    /// relative symlink to another file of the tree; `chunks[0]` holds the target's path
+    /// (relative to the workspace)
+    SymlinkToFile,
 }
 
 #[derive(Clone, Debug, Serialize, Deserialize, PartialEq, Eq, Hash)]
@@ -84,12 +87,16 @@ pub struct Inv {
     /// directories handed to the CLI, relative to the workspace (empty = the workspace itself)
     #[serde(default)]
     pub roots: Vec<String>,
+    /// output sub-path below the output location ("" = the location itself; may not exist yet,
+    /// may end in '/'); in single-file mode the directory part of the output file
+    #[serde(default)]
+    pub out_sub: String,
 }
 
 impl Inv {
     pub fn out_name(&self) -> String {
         match self.mode {
-            Mode::File => format!("types.{}", lang_ext(&self.lang)),
+            Mode::File => format!("{}types.{}", if self.out_sub.is_empty() || self.out_sub.ends_with('/') { self.out_sub.clone() } else { format!("{}/", self.out_sub) }, lang_ext(&self.lang)),
             Mode::Folder => String::new(),
         }
     }
@@ -201,8 +208,20 @@ pub fn annotated_item_names(tree: &Tree) -> Vec<String> {
     out
 }
 
-pub fn has_duplicate_names(tree: &Tree) -> bool {
-    let mut n = annotated_item_names(tree);
-    n.sort();
-    n.windows(2).any(|w| w[0] == w[1])
+/// Two annotated items with the same name in one output namespace: anywhere in single-file
+/// mode, within one crate (directory above `src`) in multi-file mode.
+pub fn has_duplicate_names(tree: &Tree, mode: &Mode) -> bool {
+    let mut groups: std::collections::BTreeMap<String, Tree> = Default::default();
+    for f in tree {
+        let key = match mode {
+            Mode::File => String::new(),
+            Mode::Folder => f.path.split("/src/").next().unwrap_or("").to_string(),
+        };
+        groups.entry(key).or_default().push(f.clone());
+    }
+    groups.values().any(|t| {
+        let mut n = annotated_item_names(t);
+        n.sort();
+        n.windows(2).any(|w| w[0] == w[1])
+    })
 }
